@@ -272,7 +272,8 @@ class Proc(object):
     pass
 
 
-def start_lockstep(box, pnames, extra_shim=None, now=(2020, 1, 1, 0, 0, 0)):
+def start_lockstep(box, pnames, extra_shim=None, now=(2020, 1, 1, 0, 0, 0), commands=None):
+    """commands: optional {process name: (script, argv)}; default: trash-put of the process's own source"""
     procs = {}
     for p in pnames:
         pr = Proc()
@@ -283,7 +284,9 @@ def start_lockstep(box, pnames, extra_shim=None, now=(2020, 1, 1, 0, 0, 0)):
         cfg = box.shim(pname=p, lockstep={'ann': a_w, 'tok': t_r, 'shared': box.shared_prefixes()})
         if extra_shim:
             cfg.update(extra_shim)
-        pr.h = runner.spawn('trash-put', box.put_argv(p), os.path.join(box.root, 'cwd'), box.env(), shim_cfg=cfg, now=now)
+        script, argv = (commands or {}).get(p, ('trash-put', None))
+        pr.h = runner.spawn(script, box.put_argv(p) if argv is None else argv, os.path.join(box.root, 'cwd'), box.env(),
+                            shim_cfg=cfg, now=now)
         os.close(a_w)
         os.close(t_r)
         pr.buf = b''
@@ -329,11 +332,11 @@ def advance_to_want(pr):
             pr.events.append(m)
 
 
-def run_schedule(box, pnames, choose, max_steps=400, control=None):
+def run_schedule(box, pnames, choose, max_steps=400, control=None, commands=None):
     """Run the processes in lock-step.  choose(step, runnable, current) -> process name.
     control(step, proc, want) -> None | 'K' (kill before the operation) | errno name (fault).
     Returns (steps, results): steps = [{p, op, raw, res, state}], results = {p: runner result}."""
-    procs = start_lockstep(box, pnames)
+    procs = start_lockstep(box, pnames, commands=commands)
     creators = {}
     steps = []
     try:
